@@ -2,6 +2,7 @@ SPECIFICATION Spec
 CONSTANTS
   MaxLeaves = 4
   MaxArity = 3
+  UnaryUpTo = 4
   Pats = {1, 2}
 INVARIANT L_Domain
 INVARIANT L_PathSums
